@@ -11,6 +11,7 @@ EXTENDS SimplifyProps, TLC, Json
 
 CONSTANTS N,        \* largest curve length explored
           MaxPerm,  \* row permutations are enumerated for tables with <= MaxPerm rows
+          Repeats,  \* TRUE: position lists may repeat a position (the library itself passes [0,1,1,2])
           Emit      \* TRUE: print one JSON behaviour per terminal state (binding G)
 
 VARIABLES n, reduced, removed, sortedFlag, idxs,   \* the call's arguments
@@ -27,7 +28,12 @@ Init ==
               /\ sortedFlag = sf
               /\ \E p \in (IF sf THEN {[x \in 1..(Cardinality(T)+1) |-> x]} ELSE Perms(Cardinality(T)+1)) :
                    removed = [r \in 1..(Cardinality(T)+1) |-> RemovedOf(SortedSeqOf({0, n-1} \cup T))[p[r]]]
-         /\ \E Q \in SUBSET (0..(Cardinality(T)+1)) : idxs = SortedSeqOf(Q)
+         \* ascending position lists: every strictly ascending one, and (Repeats) ascending lists with repeated positions
+         /\ \/ \E Q \in SUBSET (0..(Cardinality(T)+1)) : idxs = SortedSeqOf(Q)
+            \/ /\ Repeats
+               /\ \E p1 \in 0..(Cardinality(T)+1), p2 \in 0..(Cardinality(T)+1), k1 \in 1..2, k2 \in 0..2 :
+                    /\ p1 <= p2 /\ k1 + k2 >= 2 /\ (p1 = p2 => k2 = 0)
+                    /\ idxs = [x \in 1..k1 |-> p1] \o [x \in 1..k2 |-> p2]
     /\ srt = <<>> /\ j = 0 /\ count = 0 /\ k = 1 /\ out = <<>> /\ pc = "start"
 
 \* `if not sorted: sorted_removed = removed[np.argsort(removed[:, 0])]`
